@@ -31,7 +31,7 @@ ColoursOf(n) == [i \in 1..n |-> <<Q(i,8), Q(n-i,8), Q(1,2)>>]
 TcoordsOf(n) == [i \in 1..n |-> <<Q(i,8), Q(2*i-1,16)>>]
 Bare(cls, pts) ==
    LET n == Len(pts) IN
-   [cls |-> cls, pts |-> pts,
+   [cls |-> cls, pts |-> pts, empty |-> (n = 0),
     tris |-> IF cls \in {"TriMesh", "ColouredTriMesh", "TexturedTriMesh"} THEN TrisOf(n) ELSE <<>>,
     edges |-> CASE cls \in {"PointUndirectedGraph", "LabelledPointUndirectedGraph"} -> UEdgesOf(n)
                 [] cls = "PointDirectedGraph" -> DEdgesOf(n) [] cls = "PointTree" -> TreeEdgesOf(n) [] OTHER -> <<>>,
@@ -43,11 +43,13 @@ Bare(cls, pts) ==
 PtsOf(d) == IF d = 2 THEN Pts2 ELSE Pts3
 LmA(d) == IF d = 2 THEN LmPtsA2 ELSE LmPtsA3
 LmB(d) == IF d = 2 THEN LmPtsB2 ELSE LmPtsB3
-\* landmark configurations: 0 = none, 1..8 = one group of class k, 9 = two groups, 10 = a group that itself carries landmarks
+\* landmark configurations: 0 = none, 1..8 = one group of class k, 9 = two groups, 10 = a group that itself carries landmarks, 11 = below
 LmsOf(cfg, d) ==
    IF cfg = 0 THEN <<>>
    ELSE IF cfg \in 1..8 THEN << <<"grp", Bare(Classes[cfg], LmA(d))>> >>
    ELSE IF cfg = 9 THEN << <<"zeta", Bare("PointCloud", LmA(d))>>, <<"alpha", Bare("PointUndirectedGraph", LmB(d))>> >>
+   \* 11 = a group WITHOUT points listed first (legal: annotations not made yet), then an ordinary one
+   ELSE IF cfg = 11 THEN << <<"unannotated", Bare("PointCloud", <<>>)>>, <<"zeta", Bare("PointCloud", LmA(d))>> >>
    ELSE << <<"nested", [Bare("TriMesh", LmA(d)) EXCEPT !.lms = << <<"inner", Bare("PointCloud", LmB(d))>> >>]>> >>
 ShapeOf(cls, d, cfg) == [Bare(cls, PtsOf(d)) EXCEPT !.lms = LmsOf(cfg, d)]
 \* ---- transforms used by `apply` ------------------------------------------------------------------
